@@ -40,7 +40,7 @@ Print Assumptions C07_register_write_then_read.
 (** each evaluated source denotes its value under the substituted pre-state (C06 applied to one source) *)
 Theorem C07_source_value_in_pre_state : forall (Sig : string -> Z * bool * bool) (s : pool),
   pool_mem s = [] -> Forall (binding_ok Sig) (pool_id s) ->
-  forall fuel src v, wf (IdQ Sig) src = true -> eval_expr fuel s src = inl (Ok v) ->
+  forall fuel src v, wf false (IdQ Sig) src = true -> eval_expr fuel s src = inl (Ok v) ->
   forall rho mu iota, eval rho mu iota v = eval (rho' s rho mu iota) mu iota src.
 Proof. intros Sig s Hm Hp fuel src v W H. apply (eval_expr_is_substitution Sig s Hm Hp fuel src v W H). Qed.
 Print Assumptions C07_source_value_in_pre_state.
